@@ -29,7 +29,8 @@ def fail(msg):
 
 def parse(rel):
     try:
-        return ast.parse(open(os.path.join(PY, rel)).read())
+        import reconcile, translate_py
+        return reconcile.reconcile(rel, ast.parse(open(os.path.join(PY, rel)).read()), translate_py.RECONCILED)
     except (OSError, SyntaxError) as e:
         fail("cannot parse %s: %s" % (rel, e))
 
